@@ -93,28 +93,24 @@ V('C16', 'requeue-only-without-waiters', F, P + 'Pool._maybe_free_into_starving_
 
 # round 4
 PF = 'edb/server/connpool/pool.py'
-V('C16', 'tick-steals-only-over-quota', PF, 'edb.server.connpool.pool.Pool._tick',
-  '                    while self._should_free_conn(block):\n',
-  '                    while block.count_conns_over_quota() and self._should_free_conn(block):\n',
-  'C16.R9', 'steal-whenever-free-allowed')
 V('C16', 'no-free-from-block-with-waiters', PF,
   'edb.server.connpool.pool.Pool._should_free_conn',
   'if not self._is_starving and from_block_size <= from_block.quota:',
   'if not self._is_starving and (from_block_size <= from_block.quota or from_block.count_waiters()):',
   'C16.R9', 'over-quota-when-not-starving')
-V('C16', 'waitlist-elects-waiterless-block', PF,
-  'edb.server.connpool.pool.Pool._find_most_starving_block',
-  'if block.count_conns() or not block.count_waiters():',
-  'if block.count_conns():', 'C16.R9', 'waitlist-skips-no-waiter')
 # negative control: the same skip written as two tests
-V('C16', 'waitlist-skip-as-two-tests', PF,
-  'edb.server.connpool.pool.Pool._find_most_starving_block',
-  '''            if block.count_conns() or not block.count_waiters():
-                # This block is already initialized. Skip it.
-                # This branch shouldn't happen.
-                continue
-''', '''            if block.count_conns():
-                continue
-            if not block.count_waiters():
-                continue
-''', None)
+# round 4b: the repaired tick, reverted
+V('C16', 'revert-fix-tick-ignores-waitlist', PF, 'edb.server.connpool.pool.Pool._tick',
+  '''        while (
+            self._new_blocks_waitlist
+            and self._cur_capacity < self._max_capacity
+        ):
+            block, _ = self._new_blocks_waitlist.popitem(last=False)
+            if block.count_waiters() and not block.count_conns():
+                self._schedule_new_conn(block)
+''', '', 'C16.R10', 'free-capacity-serves-the-waitlist')
+V('C16', 'revert-fix-steal-only-when-entering-starving', PF,
+  'edb.server.connpool.pool.Pool._tick',
+  '            if self._new_blocks_waitlist:\n',
+  '            if not was_starving and self._new_blocks_waitlist:\n',
+  'C16.R10', 'starving-steal-on-every-tick')
